@@ -998,7 +998,16 @@ def _structure_returns(block: List[ast.stmt]) -> Optional[List[ast.stmt]]:
                 out.append(ast.copy_location(ast.If(test=st.test, body=body2, orelse=orelse0),
                                              st))
                 return out
-            return None  # a return on some but not all paths of a non-tail branch
+            # a return on some but not all paths of both branches: continue each branch with
+            # what follows the `if` (tail duplication)
+            if sum(1 for s_ in rest for _x in ast.walk(s_)) > 400:
+                return None
+            b2 = _structure_returns(list(st.body) + copy.deepcopy(rest))
+            o2 = _structure_returns(list(st.orelse) + rest)
+            if b2 is None or o2 is None:
+                return None
+            out.append(ast.copy_location(ast.If(test=st.test, body=b2, orelse=o2), st))
+            return out
         out.append(st)
     return out
 
@@ -1133,7 +1142,7 @@ class _Helper:
         # a helper with several returns is folded back as statements where it is called as a
         # statement (`v = helper(..)`), and as one conditional expression elsewhere
         if self.expr is not None and sum(1 for x in _walk_scope(node)
-                                         if isinstance(x, ast.Return)) >= 3:
+                                         if isinstance(x, ast.Return)) >= 2:
             st0 = _structure_returns(_strip_doc(node.body))  # type: ignore[attr-defined]
             if st0 is not None:
                 self.structured = st0
